@@ -637,7 +637,9 @@ class Ceremony:
             ver = False
         vs, rt = self.verdicts(t)
         n_signers = len(c.signers)
-        sig = {'witness': self.wt, 'stage': stage.split(':')[0], 'via': c.via[-1], 'multisig': not self.single}
+        # a raw hand-off anywhere in the chain is what matters for the recorded raw-export finding
+        sig = {'witness': self.wt, 'stage': stage.split(':')[0], 'via': 'raw' if 'raw' in c.via else c.via[-1],
+               'multisig': not self.single}
         if vs is None:
             if ver:
                 w.violation('verifies_but_unserializable', sig, 'verify() True but %s' % rt)
